@@ -264,7 +264,7 @@ func (hrw *httpReadWriter) Write(ctx context.Context, rpc *Rpc) error {
 		return err
 	}
 
-	r, err := http.NewRequest("POST", "http://"+hrw.writeAddr, bytes.NewBuffer(data))
+	r, err := http.NewRequestWithContext(ctx, "POST", "http://"+hrw.writeAddr, bytes.NewBuffer(data))
 	if err != nil {
 		hrw.cancel()
 		return err
@@ -277,6 +277,10 @@ func (hrw *httpReadWriter) Write(ctx context.Context, rpc *Rpc) error {
 	resp, err := client.Do(r)
 
 	if err != nil {
+		if ctx.Err() != nil {
+			// The caller gave up on this Write; the connection itself is fine.
+			return ctx.Err()
+		}
 		log.Error().Err(err).Msgf("HttpRpcReadWriter: failed to write")
 		// TODO: retry
 		hrw.cancel()
